@@ -106,6 +106,8 @@ type Exec struct {
 	cost    int
 	delays  int
 	frozen  bool
+	ctrl    uint64   // goroutine id of the controller: its own calls of Gate (set-up, end-state oracles, clean-up) pass through
+	cleanup []func() // run by the controller at tear-down (e.g. closing objects whose background goroutines would otherwise never end)
 
 	Viol     *Violation
 	Verdict  string // "complete", "violation", "blocked", "stepcap", "diverged"
@@ -131,6 +133,9 @@ func (x *Exec) Elapsed() time.Duration { return time.Since(x.start) }
 
 // Threads returns the registered threads (ids assigned).
 func (x *Exec) Threads() []*Thread { return x.threads }
+
+// Cleanup registers a function the controller runs at tear-down, whatever the verdict.
+func (x *Exec) Cleanup(f func()) { x.cleanup = append(x.cleanup, f) }
 
 // Freeze ends the exploration part of an execution: from now on the controller follows the default
 // scheduler and offers no alternatives (used for a sequential epilogue such as a verdict at quiescence).
@@ -216,6 +221,9 @@ func (x *Exec) GateChoose(client int, label string, n int) int { return x.gate(c
 
 func (x *Exec) gate(client int, label string, n int) int {
 	g := goid()
+	if g == x.ctrl {
+		return 0 // the controller is not a thread of the system under test
+	}
 	x.mu.Lock()
 	if x.killed {
 		x.mu.Unlock()
@@ -480,6 +488,9 @@ func (x *Exec) loop() {
 }
 
 func (x *Exec) teardown() {
+	for _, f := range x.cleanup {
+		f()
+	}
 	x.mu.Lock()
 	x.killed = true
 	for _, th := range x.byGo {
@@ -524,7 +535,7 @@ func RunOnce(t *testing.T, opts *Options, body func(x *Exec), prefix []int, expe
 		}()
 		synctest.Test(t, func(t *testing.T) {
 			rand.Seed(1) //nolint — retry-go's jitter uses the global source: owned here
-			x = &Exec{T: t, opts: opts, byGo: map[uint64]*Thread{}, arrive: make(chan struct{}, 1), prefix: prefix, expect: expect, start: time.Now()}
+			x = &Exec{T: t, opts: opts, byGo: map[uint64]*Thread{}, arrive: make(chan struct{}, 1), prefix: prefix, expect: expect, start: time.Now(), ctrl: goid()}
 			x.ctx, x.cancel = context.WithCancel(context.Background())
 			body(x)
 			x.loop()
